@@ -27,17 +27,29 @@ pub struct Tier {
 pub fn tier(tier: &str, only_maintenance: bool) -> Tier {
     let off = verif_seed().unsigned_abs() * 100;
     let bases = [BASE0, BASE1, BASE2];
+    let quick_set = instances(&bases, 1, 2);
     let (mut insts, seeds, describe) = if tier == "thorough" {
-        let mut v = instances(&bases, 1, 3);
+        // everything of the quick tier, plus - with the demand levels {no passengers, two vehicles} - one
+        // more trip (<=1 deviation x <=3 trips) and one more deviation (<=2 deviations x <=2 trips)
+        let mut v = quick_set;
         let mut seen: std::collections::HashSet<Inst> = v.iter().cloned().collect();
-        for i in instances(&bases, 2, 2) {
-            if seen.insert(i.clone()) {
-                v.push(i);
+        let two_levels = |t: &Trip| t.dem == 0 || t.dem == 2;
+        for b in bases {
+            for (dev, ntrips) in [(1usize, 3usize), (2, 2)] {
+                for cfg in configs(b, dev) {
+                    let cat: Vec<Trip> = catalogue(&cfg).into_iter().filter(two_levels).collect();
+                    for trips in trip_multisets(&cat, ntrips) {
+                        let i = Inst { cfg, trips };
+                        if seen.insert(i.clone()) {
+                            v.push(i);
+                        }
+                    }
+                }
             }
         }
-        (v, vec![1 + off, 2 + off, 3 + off, 4 + off], "bases {no maintenance; one slot x 2 tracks with binding maximalDistance; a slot overlapping/tying the trips with binding maximalDistance}: (<=1 config deviation x <=3 trips) U (<=2 deviations x <=2 trips); 4 hash seeds".to_string())
+        (v, vec![1 + off, 2 + off, 3 + off], "bases {no maintenance; one slot x 2 tracks with binding maximalDistance; a slot overlapping/tying the trips with binding maximalDistance}: the quick set (<=1 config deviation x <=2 trips, 4 demand levels) U, with demand levels {0 passengers, 2 vehicles}, (<=1 deviation x <=3 trips) U (<=2 deviations x <=2 trips); 3 hash seeds".to_string())
     } else {
-        (instances(&bases, 1, 2), vec![1 + off, 2 + off], "bases {no maintenance; one slot x 2 tracks with binding maximalDistance; a slot overlapping/tying the trips with binding maximalDistance}: <=1 config deviation x <=2 trips; 2 hash seeds".to_string())
+        (quick_set, vec![1 + off, 2 + off], "bases {no maintenance; one slot x 2 tracks with binding maximalDistance; a slot overlapping/tying the trips with binding maximalDistance}: <=1 config deviation x <=2 trips; 2 hash seeds".to_string())
     };
     // deep family (all tiers): three trips on the two maintenance bases under every cost model, demand
     // levels {no passengers, two vehicles} - longer local-search trajectories with trade-offs between
